@@ -3,6 +3,12 @@ def lookup(pid):
     if pid in ("C09", "C10", "C11"):
         from checks import exprcheck
         return exprcheck.run
+    if pid == "C19":
+        from checks import threadcheck
+        return threadcheck.run
+    if pid == "C20":
+        from checks import configcheck
+        return configcheck.run
     if pid == "C05":
         from checks import typecheck
         return typecheck.run
